@@ -83,7 +83,7 @@ def value(rng, N=5, null=-999.25):
         return subnormal(rng)
     if k < 0.82:
         return rng.uniform(-1, 1) * 10.0 ** rng.randint(-320, 308)
-    if k < 0.86:
+    if k < 0.83:
         try:
             return float(null) + rng.choice([0.0, 0.0, 1e-9, -1e-9, 0.004, -0.004, 0.5])   # NULL-equal / NULL-near cells
         except (TypeError, ValueError, OverflowError):
